@@ -87,12 +87,12 @@ ADDENDA = {
     "C05": "Added: every call of substitutions sits behind a factorisation of the same receiver and no path of par() returns around the solver; past its last dominating test an accumulation of the assembly cannot be skipped (path clause).",
     "C09": "Added: the alignment flag alone decides between create_with_alignment and create(speed); the fallback estimate runs for exactly the last label when it has no end time; the inheritance loop of Labels::new covers every label from the first.",
     "C10": "Added: no branch of mul / mul_add_assign depends on the weight.",
-    "C07": "Added: the ring buffer that selects the branch of Excitation::get has exactly nlpf elements.",
+    "C07": "Added: the ring buffer that selects the branch of Excitation::get has exactly nlpf elements; a fresh excitation starts with period, counter and increment 0.",
     "C08": "Added: set_speed stores max(f, 1e-6) - the speed reaching create() is the one the user set.",
     "C11": "Added (R8): set_msd_threshold stores clamp(f, 0, 1) on every path and get_msd_threshold returns that element.",
     "C12": "Added: MlpgAdjust::new keeps the stream's GV statistics unchanged, create() hands self.gv to par(), and with a GV model every return of par() is apply_gv's result.",
-    "C13": "Added (R6, R7): the MGLSA section and its cascade; the generalised branch of Vocoder::synthesize (df call and arguments, gain b[0], linear interpolation, first-frame / end-of-frame values, b[i] *= gamma for i >= 1 on the first and on every frame); delayed inputs of lsp2lpc maintained as x2 <- x1 <- x.",
-    "C14": "Added: conversion stores may be conditional only if the buffer they start from is a copy of the input; the postfilter calls are unconditional in their branch (at most beta > 0).",
+    "C13": "Added (R6, R7): the MGLSA section and its cascade; the generalised branch of Vocoder::synthesize (df call and arguments, gain b[0], linear interpolation, first-frame / end-of-frame values, b[i] *= gamma for i >= 1 on the first and on every frame); delayed inputs of lsp2lpc maintained as x2 <- x1 <- x. Added later: lsp2lpc tags its polynomial with the voice's alpha / gamma, is driven by a unit impulse from zero state and writes a[k-1] for k >= 1 only; gnorm / ignorm are the gain normalisations; gc2gc is the gamma-conversion recursion and mgc2mgc the chain gnorm - gc2gc - ignorm (the last two judged in the spellings the clause can read, otherwise recorded as not evaluated).",
+    "C14": "Added: conversion stores may be conditional only if the buffer they start from is a copy of the input; the postfilter calls are unconditional in their branch (at most beta > 0); both conversion recurrences copy element len - 1 and cover 0..len-1.",
     "C15": "Added: the single call is unconditional (at most h != 0) and the half tone feeds nothing else in Engine::generator; set_additional_half_tone stores its argument unchanged (R6).",
     "C17": "Added (R6): every Ok of Labels::new has one time pair per label (negative = unknown pairs when no times are given); a text line without time stamps pushes a pair of strictly negative constants.",
     "C20": "Added: each setter's store is on every path to the return.",
